@@ -2000,14 +2000,15 @@ impl Fs {
                     self.synced_entries.swap_remove(p);
                 }
                 PendingOp::Rename { from, to } => {
-                    if from.parent() == Some(path) {
+                    if from.parent() == Some(path) || to.parent() == Some(path) {
                         dir_modified = true;
-                        self.synced_entries.swap_remove(from);
                     }
-                    if to.parent() == Some(path) {
-                        dir_modified = true;
-                        self.synced_entries.insert(to.clone());
-                    }
+                    // The rename is flushed as a whole (the persisted entry
+                    // moves below), so both of its entry changes become
+                    // durable together, also when the other side lives in a
+                    // different directory.
+                    self.synced_entries.swap_remove(from);
+                    self.synced_entries.insert(to.clone());
                 }
                 _ => {}
             }
